@@ -310,3 +310,9 @@ CHECKS["C17"]["text"] = CHECKS["C17"]["text"].replace(
     "every listed path is removed, and after Close). They found F18 (an event handled during Close leaked every descriptor; repaired; the "
     "repaired behaviour is a theorem: full_close_releases_queue_gone), F17 and F19 (known findings); F16's schedule is the theorem "
     "close_during_add_leaks. Partial twice:")
+
+CHECKS["C20"]["text"] = CHECKS["C20"]["text"] + (
+    " The grouped script is a correct patch too (hunks_turn_a_into_b, all inputs, every amount of context): copying the first text up "
+    "to each hunk of GetGroupedOpCodes(n), applying the hunk and copying the rest yields the second text; lines that contain per-cent "
+    "signs, backslashes, quotes, hunk-syntax prefixes or regexp text are part of the differential stage.")
+CHECKS["C20"]["technique"] = "Lean 4 proofs for all inputs (edit-script validity, the hunks are a correct patch, empty diff iff equal texts) + exhaustive differential correspondence"
